@@ -93,6 +93,7 @@ class ECDH1PUAlgModel(JWEKeyAgreement):
         assert sender_key is not None
         assert recipient_key is not None
         assert ephemeral_key is not None
+        sender_key.check_use("enc")
 
         sender_shared_key = sender_key.exchange_derive_key(recipient_key)
         ephemeral_shared_key = ephemeral_key.exchange_derive_key(recipient_key)
@@ -114,6 +115,7 @@ class ECDH1PUAlgModel(JWEKeyAgreement):
         recipient_key = recipient.recipient_key
         assert sender_key is not None
         assert recipient_key is not None
+        sender_key.check_use("enc")
 
         ephemeral_key = recipient_key.import_key(headers["epk"])
         sender_shared_key = recipient_key.exchange_derive_key(sender_key)
